@@ -1,89 +1,116 @@
-(* Controlled symbolic execution of generated terms.
+(* Symbolic execution of generated terms under the CPS semantics.
 
-   [interp (S f)] unfolds one level by the equations below (all by computation);
-   the [*_step] functions are not recursive, so [cbv] with a delta whitelist
-   evaluates exactly one layer and never runs ahead under a binder.  [sx_step]
-   always works on the innermost scrutinee of the goal's last argument (the
-   point where evaluation is stuck), so only live paths are explored.  The
-   tactics never look at which function is being executed.
+   Statement-level functions (exec_block, exec, handle, exec_for) are stepped with their unfolding
+   equations; everything below a statement (expressions, calls into opaque callees, assignments) is
+   run by one [cbv] with the rest of the run abstracted as continuation variables.  The result of
+   such a run is a small decision tree over the facts evaluation needs (a heap lookup, a callee's
+   answer, a dictionary entry); it is walked with the hypotheses, dead alternatives disappear by
+   iota.  Calls of program functions surface as [exec_block] leaves and are stepped in turn. *)
+From HyV Require Export State.EvalRestoreEqs.
 
-   NB: proof files must say [Local Opaque interp.] -- otherwise conversion may
-   compare two [interp n] by unfolding, which is exponential in n. *)
-From HyV Require Import State.EvalRestoreSem.
+Definition pure_oracle := nat -> string -> list val -> list (string * val) -> heap -> heap * ores.
+(* a callee that does not call back, given by the function returning its heap and outcome *)
+Definition nr (O : pure_oracle) : oracle :=
+  fun n g a kw h => BDone (fst (O n g a kw h)) (snd (O n g a kw h)).
 
-Section Eqs.
-Variable P : prog.
-Variable Orc : oracle.
-Notation I := (interp P Orc).
-Lemma eq_eval f en e s : r_eval (I (S f)) en e s = eval_step P (I f) en e s. Proof. reflexivity. Qed.
-Lemma eq_evals f en es s : r_evals (I (S f)) en es s = evals_step (I f) en es s. Proof. reflexivity. Qed.
-Lemma eq_evalkw f en kw s : r_evalkw (I (S f)) en kw s = evalkw_step (I f) en kw s. Proof. reflexivity. Qed.
-Lemma eq_ocall f g a kw s : r_ocall (I (S f)) g a kw s = ocall_step Orc (I f) g a kw s. Proof. reflexivity. Qed.
-Lemma eq_run_beh f b n : r_run_beh (I (S f)) b n = run_beh_step P (I f) b n. Proof. reflexivity. Qed.
-Lemma eq_call_value f c v a kw s : r_call_value (I (S f)) c v a kw s = call_value_step P (I f) c v a kw s. Proof. reflexivity. Qed.
-Lemma eq_call_method f c v m a kw s : r_call_method (I (S f)) c v m a kw s = call_method_step P (I f) c v m a kw s. Proof. reflexivity. Qed.
-Lemma eq_call_fun f c n fd a kw s : r_call_fun (I (S f)) c n fd a kw s = call_fun_step (I f) c n fd a kw s. Proof. reflexivity. Qed.
-Lemma eq_assign f en t v s : r_assign (I (S f)) en t v s = assign_step (I f) en t v s. Proof. reflexivity. Qed.
-Lemma eq_assigns f en ts vs s : r_assigns (I (S f)) en ts vs s = assigns_step (I f) en ts vs s. Proof. reflexivity. Qed.
-Lemma eq_exec f en c s : r_exec (I (S f)) en c s = exec_step (I f) en c s. Proof. reflexivity. Qed.
-Lemma eq_handle f en x hs s : r_handle (I (S f)) en x hs s = handle_step P (I f) en x hs s. Proof. reflexivity. Qed.
-Lemma eq_exec_for f en t vs b s : r_exec_for (I (S f)) en t vs b s = exec_for_step (I f) en t vs b s. Proof. reflexivity. Qed.
-Lemma eq_exec_block f en cs s : r_exec_block (I (S f)) en cs s = exec_block_step (I f) en cs s. Proof. reflexivity. Qed.
-End Eqs.
-
-Ltac sx_red :=
-  cbv beta iota zeta delta
-    [eval_step evals_step evalkw_step ocall_step run_beh_step call_value_step call_method_step call_fun_step
-     assign_step assigns_step exec_step handle_step exec_for_step exec_block_step
-     aget aset const_val bind_params bind_params_aux fextra forallb option_map String.eqb Ascii.eqb Bool.eqb strmem existsb
-     mro_of exc_matches find_method lookup_fun drop_until before_dot append
-     fst snd List.length Nat.eqb glob_get pvars pfuns pmro fparams fbody
-     truthy val_is val_eqb get_attr subscript contains builtin_method iter_items exn module_dict
-     negb andb orb hset].
-
-
+Lemma nr_eq O n g a kw h : nr O n g a kw h = BDone (fst (O n g a kw h)) (snd (O n g a kw h)).
+Proof. reflexivity. Qed.
 Lemma dget_nil k : dget k [] = None. Proof. reflexivity. Qed.
 
-Ltac sx_head t :=
+Ltac is_eta_var x :=
+  lazymatch x with
+  | (fun a b => ?k a b) => is_var k
+  | (fun a b c => ?k a b c) => is_var k
+  end.
+Ltac abs_if x :=
+  tryif first [ is_var x | is_eta_var x ] then fail else
+    (let n := fresh "k" in let E := fresh "Ek" in remember x as n eqn:E).
+
+Ltac px_abs :=
+  repeat lazymatch goal with
+  | |- call_method _ _ _ _ _ _ _ _ _ _ _ _ _ ?k ?kx => first [abs_if k | abs_if kx]
+  | |- call_fun _ _ _ _ _ _ _ _ _ _ _ _ _ ?k ?kx => first [abs_if k | abs_if kx]
+  | |- exec _ _ _ _ _ _ _ _ _ ?kn ?kr ?kx => first [abs_if kn | abs_if kr | abs_if kx]
+  | |- handle _ _ _ _ _ _ _ _ _ _ ?kn ?kr ?kx => first [abs_if kn | abs_if kr | abs_if kx]
+  | |- exec_for _ _ _ _ _ _ _ _ _ _ _ ?kn ?kr ?kx => first [abs_if kn | abs_if kr | abs_if kx]
+  | |- exec_block _ _ _ _ _ _ _ _ _ ?kn ?kr ?kx => first [abs_if kn | abs_if kr | abs_if kx]
+  end.
+
+Ltac px_head t :=
   lazymatch t with
-  | match ?x with _ => _ end => sx_head x
+  | match ?x with _ => _ end => px_head x
   | _ => t
   end.
 
-(* One step at the stuck point of a goal of the form [Q t].
-   [on_oracle O n g a kw h] is called when evaluation waits for the answer of an opaque callee;
-   [on_other hd] when it waits for anything else (it must make progress or fail). *)
-Ltac sx_step on_oracle on_other :=
-  lazymatch goal with
-  | |- _ ?T =>
-    let hd := sx_head T in
-    lazymatch hd with
-    | r_eval (interp ?P ?O (S ?f)) ?en ?e ?s => rewrite (eq_eval P O f en e s)
-    | r_evals (interp ?P ?O (S ?f)) ?en ?e ?s => rewrite (eq_evals P O f en e s)
-    | r_evalkw (interp ?P ?O (S ?f)) ?en ?e ?s => rewrite (eq_evalkw P O f en e s)
-    | r_ocall (interp ?P ?O (S ?f)) ?g ?a ?kw ?s => rewrite (eq_ocall P O f g a kw s)
-    | r_run_beh (interp ?P ?O (S ?f)) ?b ?n => rewrite (eq_run_beh P O f b n)
-    | r_call_value (interp ?P ?O (S ?f)) ?c ?v ?a ?kw ?s => rewrite (eq_call_value P O f c v a kw s)
-    | r_call_method (interp ?P ?O (S ?f)) ?c ?v ?m ?a ?kw ?s => rewrite (eq_call_method P O f c v m a kw s)
-    | r_call_fun (interp ?P ?O (S ?f)) ?c ?n ?fd ?a ?kw ?s => rewrite (eq_call_fun P O f c n fd a kw s)
-    | r_assign (interp ?P ?O (S ?f)) ?en ?t ?v ?s => rewrite (eq_assign P O f en t v s)
-    | r_assigns (interp ?P ?O (S ?f)) ?en ?t ?v ?s => rewrite (eq_assigns P O f en t v s)
-    | r_exec (interp ?P ?O (S ?f)) ?en ?c ?s => rewrite (eq_exec P O f en c s)
-    | r_handle (interp ?P ?O (S ?f)) ?en ?x ?hs ?s => rewrite (eq_handle P O f en x hs s)
-    | r_exec_for (interp ?P ?O (S ?f)) ?en ?t ?vs ?b ?s => rewrite (eq_exec_for P O f en t vs b s)
-    | r_exec_block (interp ?P ?O (S ?f)) ?en ?cs ?s => rewrite (eq_exec_block P O f en cs s)
-    | hget ?h ?d =>
-        lazymatch goal with
-        | H : hget h d = _ |- _ => rewrite H
-        | _ => on_other hd
-        end
-    | dget ?k [] => rewrite (dget_nil k)
-    | dget ?k ?kvs => destruct (dget k kvs) eqn:?
-    | ?O ?n ?g ?a ?kw ?h =>
-        lazymatch type of O with
-        | oracle => on_oracle O n g a kw h
-        | _ => on_other hd
-        end
-    | _ => first [ is_var hd; destruct hd | on_other hd ]
-    end
+Ltac px_resume :=
+  match goal with
+  | |- ?k _ _ _ => is_var k; subst k; cbv beta
+  | |- ?k _ _ => is_var k; subst k; cbv beta
   end.
+
+(* One step.  [rtac]: the family's evaluation tactic (cbv with the expression-level interpreter
+   functions, the helpers and the family's program constants);
+   [on_oracle O n g a kw h]: evaluation waits for a callee's answer; [on_other hd]: for something else. *)
+Ltac px_step rtac on_oracle on_other :=
+  lazymatch goal with
+  | |- exec_block ?P ?O ?A ?t ?u (S ?f) ?en ?cs ?s ?kn ?kr ?kx =>
+      rewrite (exec_block_eq P O A t u f en cs s kn kr kx); cbv beta iota
+  | |- exec ?P ?O ?A ?t ?u (S ?f) ?en ?c ?s _ _ _ =>
+      lazymatch goal with |- exec _ _ _ _ _ _ _ _ _ ?kn ?kr ?kx => rewrite (exec_eq P O A t u f en c s kn kr kx) end;
+      rtac
+  | |- handle ?P ?O ?A ?t ?u (S ?f) ?en ?x ?hs ?s _ _ _ =>
+      lazymatch goal with |- handle _ _ _ _ _ _ _ _ _ _ ?kn ?kr ?kx => rewrite (handle_eq P O A t u f en x hs s kn kr kx) end;
+      rtac
+  | |- exec_for ?P ?O ?A ?t ?u (S ?f) ?en ?tg ?vs ?b ?s _ _ _ =>
+      lazymatch goal with |- exec_for _ _ _ _ _ _ _ _ _ _ _ ?kn ?kr ?kx => rewrite (exec_for_eq P O A t u f en tg vs b s kn kr kx) end;
+      rtac
+  | |- call_fun _ _ _ _ _ _ _ _ _ _ _ _ _ _ _ => rtac
+  | |- call_method _ _ _ _ _ _ _ _ _ _ _ _ _ _ _ => rtac
+  | |- match _ with _ => _ end =>
+      lazymatch goal with
+      | |- ?T =>
+        let hd := px_head T in
+        lazymatch hd with
+        | hget ?h ?d =>
+            lazymatch goal with
+            | H : hget h d = _ |- _ => rewrite H
+            | _ => on_other hd
+            end
+        | dget ?k [] => rewrite (dget_nil k)
+        | dget ?k ?kvs =>
+            lazymatch goal with
+            | H : dget k kvs = _ |- _ => rewrite H
+            | _ => first [ on_other hd | destruct (dget k kvs) eqn:? ]
+            end
+        | lookup_fun ?P ?g => let v := eval vm_compute in (lookup_fun P g) in change (lookup_fun P g) with v
+        | find_method ?P ?l ?m => let v := eval vm_compute in (find_method P l m) in change (find_method P l m) with v
+        | glob_get ?P ?h ?x =>
+            let b := eval vm_compute in (strmem x (pvars P)) in
+            lazymatch b with
+            | false => change (glob_get P h x) with (VGlobal x)
+            | true => on_other hd
+            end
+        | nr ?O ?n ?g ?a ?kw ?h => rewrite (nr_eq O n g a kw h)
+        | snd (?O ?n ?g ?a ?kw ?h) => on_oracle O n g a kw h
+        | fst (?O ?n ?g ?a ?kw ?h) => on_oracle O n g a kw h
+        | ?O ?n ?g ?a ?kw ?h =>
+            lazymatch type of O with
+            | pure_oracle => on_oracle O n g a kw h
+            | _ => on_other hd
+            end
+        | _ => first [ is_var hd; destruct hd | on_other hd ]
+        end
+      end;
+      cbv beta iota
+  end.
+
+(* the part of the whitelist every family shares *)
+Ltac px_cbv extra :=
+  cbv beta iota zeta delta
+    [eval evals evalkw ocall run_beh call_value call_method call_fun assign assigns
+     truthy_k nth_k subscript_k contains_k builtin_method_k iter_items dispatch strip_exc
+     truthy val_is val_eqb aget aset const_val bind_params bind_params_aux fextra fparams fbody
+     forallb existsb option_map String.eqb Ascii.eqb Bool.eqb strmem
+     before_dot append
+     fst snd List.length Nat.eqb exn module_dict negb andb orb hset nr
+     nth_error Z.to_nat Z.ltb Z.eqb Z.compare Pos.compare Pos.compare_cont Pos.to_nat Pos.iter_op Nat.add].
